@@ -5,6 +5,7 @@
 package enum
 
 import (
+	"bytes"
 	"crypto/sha256"
 	"encoding/hex"
 	"encoding/json"
@@ -237,6 +238,8 @@ func (c *Ctx) watchdog() {
 				continue
 			}
 			cmd := exec.Command(os.Args[0], "--replay", f)
+			var probeOut bytes.Buffer
+			cmd.Stdout, cmd.Stderr = &probeOut, &probeOut
 			if cmd.Start() != nil {
 				continue
 			}
@@ -248,6 +251,11 @@ func (c *Ctx) watchdog() {
 				go func() { fin <- cmd.Wait() }()
 				select {
 				case <-fin:
+					// alone in a process the case may block every goroutine: the Go runtime then ends the
+					// process itself, which is the same verdict without the wait
+					if strings.Contains(probeOut.String(), "all goroutines are asleep - deadlock!") {
+						c.Fail("hang", d.input, "the case does not return: no evaluation completed for 60 s, and in a separate process running only this case the Go runtime reports that all goroutines are asleep (deadlock)")
+					}
 				case <-time.After(60 * time.Second):
 					cmd.Process.Kill()
 					c.Fail("hang", d.input, "the case does not return: no evaluation completed for 60 s, and a separate process running only this case was still running after 60 s")
